@@ -382,6 +382,11 @@ func cmdCheck(args []string) int {
 	// a failed obligation without a replayable model: look for a concrete failing input by executing the probes
 	// registered for the function (in-package tests with an executable oracle, run on the real code through -overlay)
 	probesRun := runProbes(cx, *prop, viols)
+	// thorough tier: the must-fail corpus of this property
+	var selftestOut map[string]any
+	if *tier == "thorough" && len(extraOverlay) == 0 {
+		selftestOut = runSelftest(*repo, *prop, cs, outDir)
+	}
 	// bounded stand-ins and thorough extras
 	var boundedOut []any
 	if len(meta.Bounded) > 0 {
@@ -459,6 +464,7 @@ func cmdCheck(args []string) int {
 				"havoced_repo_calls":       sortedKeys(havocCalls),
 				"bounded":                  boundedOut,
 				"replay_probes_run":        probesRun,
+				"must_fail_corpus":         selftestOut,
 				"vacuity":                  map[string]any{"cover_obligations": covers},
 				"known_findings_reported":  findingsOut,
 				"samples":                  samples,
